@@ -210,7 +210,14 @@ struct Ctxt<'a> {
     end: P2,
     tol: f64,
     eps: f64,
-    /// witness predicate of the known `is_linear` defect (computed from the input)
+    /// witness predicate of the residual defect: control points exactly collinear as the code
+    /// computes it (`cross == 0` → NaN parameters → count 0) and the control point further than
+    /// 2·tol from the baseline segment
+    collinear: bool,
+    /// witness predicate of the cancellation defect: a hairpin (sub-)quadratic whose control
+    /// points are collinear to within 64 eps: `cross` is rounding noise and so is the count
+    near_collinear: bool,
+    /// witness predicate of the former `is_linear` defect (fixed by 014eb9a5; class stays active)
     overshoot: bool,
     /// witness predicate of the under-sampled sharp turn (computed from the input)
     sharp: bool,
@@ -225,7 +232,11 @@ impl<'a> Ctxt<'a> {
         self.tol * (1.0 + SLACK) + ROUND * self.eps * self.curve.mag().max(1e-30)
     }
     fn tol_class(&self) -> &'static str {
-        if self.overshoot {
+        if self.collinear {
+            "collinear-overshoot-nan-count"
+        } else if self.near_collinear {
+            "near-collinear-cancellation"
+        } else if self.overshoot {
             "ctrl-overshoot"
         } else if self.sharp {
             "sharp-turn"
@@ -367,10 +378,11 @@ fn check_poly<S: Fl>(orc: &mut Oracle, cx: &Ctxt, poly: &Poly<S>) {
             }
         }
     }
-    let split_allow = cx.tol * 1.2 * 1.01 + ROUND * cx.eps * cx.curve.mag().max(1e-30);
+    // 0.4 (cubic → quadratics) + 0.6·1.25 (flattening, with the quadratic count's own inaccuracy)
+    let split_allow = cx.tol * 1.15 + ROUND * cx.eps * cx.curve.mag().max(1e-30);
     // quadratics: the closed-form approximations of the parabola integral and of its inverse are
-    // accurate to a few percent only, and so is the count: matched while ≤ 1.25·tol + rounding
-    let approx_allow = cx.tol * 1.25 + ROUND * cx.eps * cx.curve.mag().max(1e-30);
+    // accurate to a few percent only, and so is the count: matched while ≤ 1.15·tol + rounding
+    let approx_allow = cx.tol * 1.15 + ROUND * cx.eps * cx.curve.mag().max(1e-30);
     let class = match cx.tol_class() {
         "generic" if k == "quad" && worst <= approx_allow => "approx-integral",
         "generic" if k == "cubic" && worst <= split_allow => "tolerance-split",
@@ -605,7 +617,11 @@ fn lev_diag(q: &Q64, tol: f64) -> (f64, f64, f64, f64) {
     let pt = ((q.b.0 - q.c.0) * ddx + (q.b.1 - q.c.1) * ddy) / cross;
     let scale = cross.abs() / (ddx.hypot(ddy) * (pt - pf).abs());
     let (i0, i1) = (integ(pf), integ(pt));
-    let cnt = 0.5 * (i1 - i0).abs() * (scale / tol).sqrt();
+    let cnt = if (pf < 0.0) == (pt < 0.0) {
+        0.5 * (i1 - i0).abs() * (scale / tol).sqrt()
+    } else {
+        0.5 * (i1 - i0).abs() / integ((tol / scale).sqrt())
+    };
     let n = cnt.ceil().max(1.0);
     (pf, pt, (i1 - i0).abs() / n, cnt)
 }
@@ -613,14 +629,25 @@ fn lev_diag(q: &Q64, tol: f64) -> (f64, f64, f64, f64) {
 /// is_linear in f64 (with a little margin either way the classification stays a witness
 /// predicate on the input, not on the outcome)
 fn is_linear64(q: &Q64, tol: f64) -> bool {
+    d_pt_seg(q.c, q.a, q.b) <= 2.0 * tol
+}
+
+/// |cross| / (|to−from|·|2ctrl−from−to|): sine of the angle between baseline and second difference
+fn rel_cross(q: &Q64) -> f64 {
     let v = (q.b.0 - q.a.0, q.b.1 - q.a.1);
-    let w = (q.c.0 - q.a.0, q.c.1 - q.a.1);
-    let l2 = v.0 * v.0 + v.1 * v.1;
-    if l2 == 0.0 {
-        return true;
-    }
-    let cr = v.0 * w.1 - v.1 * w.0;
-    cr * cr / l2 <= tol * tol * 4.0
+    let dd = (2.0 * q.c.0 - q.a.0 - q.b.0, 2.0 * q.c.1 - q.a.1 - q.b.1);
+    (v.0 * dd.1 - v.1 * dd.0).abs() / (v.0.hypot(v.1) * dd.0.hypot(dd.1)).max(1e-300)
+}
+
+/// Witness predicate of the residual collinear defect, on the input: `cross` evaluated exactly as
+/// `FlatteningParameters::new` does (in `S`) is zero, and `is_linear` (distance of the control
+/// point to the baseline segment ≤ 2·tol) rejects with a little margin.
+fn collinear_pred<S: Fl>(q: &QuadraticBezierSegment<S>, tol: f64) -> bool {
+    let two = S::of(2.0);
+    let ddx = two * q.ctrl.x - q.from.x - q.to.x;
+    let ddy = two * q.ctrl.y - q.from.y - q.to.y;
+    let cross = (q.to.x - q.from.x) * ddy - (q.to.y - q.from.y) * ddx;
+    cross == S::of(0.0) && d_pt_seg(p2(q.ctrl), p2(q.from), p2(q.to)) > 2.0 * tol * (1.0 - 1e-3)
 }
 
 /// Witness predicate of the under-sampled sharp turn: the general (non-`is_linear`) branch is
@@ -662,7 +689,8 @@ fn run_quad<S: Fl>(q: QuadraticBezierSegment<S>, tol: S, o: &mut Out, orc: &mut 
     }
 
     let c = q64(&q);
-    let cx = Ctxt { kind: "quad", curve: &c, start: c.a, end: c.b, tol: tol.f(), eps: S::EPS, overshoot: overshoot_pred(&c, tol.f()), sharp: sharp_pred(&c, tol.f()), arc_drift: false, diag: format!("lev{:?}", lev_diag(&c, tol.f())) };
+    let near = overshoot_pred(&c, tol.f()) && rel_cross(&c) <= 64.0 * S::EPS;
+    let cx = Ctxt { kind: "quad", curve: &c, start: c.a, end: c.b, tol: tol.f(), eps: S::EPS, collinear: collinear_pred(&q, tol.f()), near_collinear: near, overshoot: overshoot_pred(&c, tol.f()), sharp: sharp_pred(&c, tol.f()), arc_drift: false, diag: format!("lev{:?}", lev_diag(&c, tol.f())) };
     check_poly(orc, &cx, &cbt.poly("callback_t", true));
     check_poly(orc, &cx, &cb.poly("callback", false));
     check_poly(orc, &cx, &tr.poly("segment-trait", true));
@@ -708,21 +736,28 @@ fn quad_case<S: Fl>(ctx: &mut Ctx) {
 
 /// (some sub-quadratic matches the `is_linear` witness predicate, some sub-quadratic matches the
 /// sharp-turn witness predicate, diagnostics)
-fn cubic_preds<S: Fl>(c: &CubicBezierSegment<S>, tol: S) -> (bool, bool, String) {
-    let (mut over, mut sharp) = (false, false);
+fn cubic_preds<S: Fl>(c: &CubicBezierSegment<S>, tol: S) -> (bool, bool, bool, bool, String) {
+    let (mut coll, mut near, mut over, mut sharp) = (false, false, false, false);
     let mut diag = String::new();
-    let ft = tol.f() * 0.8;
-    c.for_each_quadratic_bezier(tol * S::value(0.4), &mut |q| {
-        let q = q64(q);
-        if overshoot_pred(&q, ft) {
-            over = true;
-            diag.push_str(" sub-quad:overshoot");
+    let ft = (tol * S::value(0.6)).f();
+    c.for_each_quadratic_bezier(tol * S::value(0.4), &mut |qs| {
+        let q = q64(qs);
+        if collinear_pred(qs, ft) {
+            coll = true;
+            diag.push_str(" sub-quad:collinear");
+        } else if overshoot_pred(&q, ft) {
+            if rel_cross(&q) <= 64.0 * S::EPS {
+                near = true;
+            } else {
+                over = true;
+            }
+            diag.push_str(&format!(" sub-quad:overshoot(relcross {:e})", rel_cross(&q)));
         } else if sharp_pred(&q, ft) {
             sharp = true;
             diag.push_str(&format!(" sub-quad:sharp{:?}", lev_diag(&q, ft)));
         }
     });
-    (over, sharp, diag)
+    (coll, near, over, sharp, diag)
 }
 
 fn run_cubic<S: Fl>(c: CubicBezierSegment<S>, tol: S, o: &mut Out, orc: &mut Oracle) {
@@ -750,8 +785,8 @@ fn run_cubic<S: Fl>(c: CubicBezierSegment<S>, tol: S, o: &mut Out, orc: &mut Ora
     put_pts(o, &it);
 
     let k = k64(&c);
-    let (over, sharp, diag) = cubic_preds(&c, tol);
-    let cx = Ctxt { kind: "cubic", curve: &k, start: k.a, end: k.b, tol: tol.f(), eps: S::EPS, overshoot: over, sharp, arc_drift: false, diag };
+    let (coll, near, over, sharp, diag) = cubic_preds(&c, tol);
+    let cx = Ctxt { kind: "cubic", curve: &k, start: k.a, end: k.b, tol: tol.f(), eps: S::EPS, collinear: coll, near_collinear: near, overshoot: over, sharp, arc_drift: false, diag };
     check_poly(orc, &cx, &cbt.poly("callback_t", true));
     check_poly(orc, &cx, &cb.poly("callback", false));
     check_poly(orc, &cx, &tr.poly("segment-trait", true));
@@ -846,7 +881,7 @@ fn run_arc<S: Fl>(a: Arc<S>, tol: S, o: &mut Out, orc: &mut Oracle) {
     let drift = ((ra * ra - rb * rb).abs() / (2.0 * ra * rb).max(1e-300) * theta / 2.0).exp();
     let drift_pred = ra != rb && drift >= 1.08;
     let diag = format!("radii ({:e},{:e}) largest step {:.3} rad, radius drift bound {:.3}", ra, rb, theta, drift);
-    let cx = Ctxt { kind: "arc", curve: &c, start: p2(a.from()), end: p2(a.to()), tol: tol.f(), eps: S::EPS, overshoot: false, sharp: false, arc_drift: drift_pred, diag };
+    let cx = Ctxt { kind: "arc", curve: &c, start: p2(a.from()), end: p2(a.to()), tol: tol.f(), eps: S::EPS, collinear: false, near_collinear: false, overshoot: false, sharp: false, arc_drift: drift_pred, diag };
     check_poly(orc, &cx, &cbt.poly("callback_t", true));
     check_poly(orc, &cx, &cb.poly("callback", false));
     check_poly(orc, &cx, &tr.poly("segment-trait", true));
@@ -986,19 +1021,19 @@ fn path_case(ctx: &mut Ctx, cubic: bool) {
             let kind: &'static str = if cubic { "cubic" } else { "quad" };
             let q64v;
             let k64v;
-            let (cref, over, sharp, diag): (&dyn C64, bool, bool, String) = match curve {
+            let (cref, coll, near, over, sharp, diag): (&dyn C64, bool, bool, bool, bool, String) = match curve {
                 Curve::Q(q) => {
                     q64v = q64(&q);
                     let ov = overshoot_pred(&q64v, tol as f64);
-                    (&q64v, ov, sharp_pred(&q64v, tol as f64), format!("lev{:?}", lev_diag(&q64v, tol as f64)))
+                    (&q64v, collinear_pred(&q, tol as f64), ov && rel_cross(&q64v) <= 64.0 * f32::EPS, ov, sharp_pred(&q64v, tol as f64), format!("lev{:?}", lev_diag(&q64v, tol as f64)))
                 }
                 Curve::C(c) => {
                     k64v = k64(&c);
-                    let (ov, sh, dg) = cubic_preds(&c, tol);
-                    (&k64v, ov, sh, dg)
+                    let (co, ne, ov, sh, dg) = cubic_preds(&c, tol);
+                    (&k64v, co, ne, ov, sh, dg)
                 }
             };
-            let cx = Ctxt { kind, curve: cref, start: p2(from), end: p2(to), tol: tol as f64, eps: f32::EPS, overshoot: over, sharp, arc_drift: false, diag };
+            let cx = Ctxt { kind, curve: cref, start: p2(from), end: p2(to), tol: tol as f64, eps: f32::EPS, collinear: coll, near_collinear: near, overshoot: over, sharp, arc_drift: false, diag };
             for (name, ev) in [("path-builder", &ev_b), ("path-iter", &ev_it)] {
                 match curve_part(ev, lead, trail) {
                     Err(why) => orc.check(false, &format!("{}.flatten/events", kind), "generic", || format!("{}: {}", name, why)),
@@ -1044,8 +1079,8 @@ fn path_case(ctx: &mut Ctx, cubic: bool) {
 }
 
 // ---------------------------------------------------------------------------------------------
-// fixed witnesses of the known defects (always run, so that the findings are re-confirmed on
-// the real code on every run)
+// fixed witnesses of the known defects (always run, so that open findings are re-confirmed on
+// the real code on every run and fixed ones are regression cases)
 
 fn witness_cases(ctx: &mut Ctx) {
     // is_linear accepts a control point overshooting a nearly closed baseline
@@ -1088,9 +1123,49 @@ fn witness_cases(ctx: &mut Ctx) {
     });
 }
 
+fn witness_cases_2(ctx: &mut Ctx) {
+    // residual collinear defect through a cubic's sub-quadratics
+    ctx.case("cubic:64", |_| {
+        let c = CubicBezierSegment { from: point(0.0f64, 0.0), ctrl1: point(300.0, 0.0), ctrl2: point(-200.0, 0.0), to: point(0.5, 0.0) };
+        let tol = 0.01f64;
+        let mut args = Out::new();
+        args.p(c.from).p(c.ctrl1).p(c.ctrl2).p(c.to).f(tol);
+        (args, "cubic 64 witness collinear".to_string(), move || {
+            let mut o = Out::new();
+            let mut orc = Oracle::new();
+            run_cubic(c, tol, &mut o, &mut orc);
+            CaseOut { imp: o, orcl: orc.verdict }
+        })
+    });
+}
+
+fn witness_cases_3(ctx: &mut Ctx) {
+    // near-collinear hairpin: `cross` is rounding noise; the iterator's last sub-quadratic
+    // (range t0..t0+step) gets count 2 where the callback's (t0..1) gets 4
+    ctx.case("cubic:32", |_| {
+        let c = CubicBezierSegment {
+            from: point(2.1652534008026123f32, 2.1474316120147705),
+            ctrl1: point(145.203125, 106.16378784179688),
+            ctrl2: point(-4.166540622711182, -2.4570140838623047),
+            to: point(2.1652534008026123, 2.1474316120147705),
+        };
+        let tol = 0.02535335347056389f32;
+        let mut args = Out::new();
+        args.p(c.from).p(c.ctrl1).p(c.ctrl2).p(c.to).f(tol);
+        (args, "cubic 32 witness near-collinear".to_string(), move || {
+            let mut o = Out::new();
+            let mut orc = Oracle::new();
+            run_cubic(c, tol, &mut o, &mut orc);
+            CaseOut { imp: o, orcl: orc.verdict }
+        })
+    });
+}
+
 fn main() {
     let mut ctx = Ctx::from_args("C09");
     witness_cases(&mut ctx);
+    witness_cases_2(&mut ctx);
+    witness_cases_3(&mut ctx);
     let n = ctx.n(2000, 30000);
     for _ in 0..n {
         quad_case::<f32>(&mut ctx);
